@@ -1,7 +1,7 @@
 """C11 — memory safety / no undefined behaviour: the clauses that are structural."""
 from .. import expr as X
 from .. import query as Q
-from .. import rules_msg, rules_num, rules_rollback
+from .. import rules_msg, rules_num, rules_rollback, rules_array
 from . import C12
 
 
@@ -51,8 +51,14 @@ def run(ck, progs):
     ck.rule("C11.5", "a product of two caller-supplied sizes that reaches an allocation is overflow-checked")
     ck.rule("C11.6", "message buffer capacity: pooled buffers hold every payload the pool path serves, the large path allocates header + payload, the "
                      "release path pools only buffers the pool path may reuse, and the shutdown-drain buffer holds preamble + received bytes")
+    ck.rule("C11.7", "dynamic arrays (history, logs, heaps): at every expansion the grow step leaves room for the element(s) written next and the "
+                     "shrink step keeps capacity >= count, for all count <= capacity <= 12; the block is reallocated to the updated capacity * "
+                     "sizeof(element) and stored back; array_push checks the capacity before it stores and counts; the memmove of array_truncate_first "
+                     "(fossil collection of the history and of the checkpoint log) and of array_add_at covers exactly the elements that move")
     for cfg, P in progs.items():
         _capacity(ck, P, cfg)
+        rules_array.check(ck, P, "C11.7")
+        rules_array.check_moves(ck, P, "C11.7")
         rules_msg.check_typestate(ck, P, "C11.1", "C11.1")
         rules_num.check_shift_widths(ck, P, "C11.2")
         rules_rollback.check_account(Renamed(ck, {}), P, "C11.3", "C11.3")
